@@ -51,7 +51,7 @@ CHECKS["C05"] = {
     "runs": [{
         "harness": "c05_decode", "sources": ["engines/codec/c05_decode.cpp"], "deps": _DEPS,
         "variant": "plain", "libset": "core",
-        "quick": {"parts": 16, "deadline": 55,
+        "quick": {"parts": 16, "deadline": 240,
                   "bounds": "3-byte: alphabet product; EXP/EXR: 27 mantissas; 12 weekday bytes; ~33 M decodes"},
         "thorough": {"parts": 16, "deadline": 840, "args": ["--ieeebits", 28],
                      "bounds": "3-byte numeric types: all 2^24 patterns for divisors {none,10,1000,-10}; BDA:3/HDA:3/BTI/"
@@ -97,7 +97,7 @@ CHECKS["C06"] = {
     "runs": [{
         "harness": "c06_roundtrip", "sources": ["engines/codec/c06_roundtrip.cpp"], "deps": _DEPS,
         "variant": "plain", "libset": "core",
-        "quick": {"parts": 16, "deadline": 55,
+        "quick": {"parts": 16, "deadline": 240,
                   "bounds": "3-byte: alphabet product; EXP/EXR: 27 mantissas; 12 weekday bytes; ~17 M raw round trips, "
                             "~2.6 M grammar texts, 65536 KNX values"},
         "thorough": {"parts": 16, "deadline": 840,
